@@ -422,7 +422,7 @@ def rlt_refute(ses, G1, H1, vars1, G2, H2, vars2, extra_ge, viol_gt, label, time
     return res, cs
 
 
-def rlt_block(ses, cp, blk, G2, H2, T2, vars2, viol, label, kind, sample=None, timeout_ms=None, Q2=()):
+def rlt_block(ses, cp, blk, G2, H2, T2, vars2, viol, label, kind, sample=None, timeout_ms=None, Q2=(), full_pairing=False):
     """One compiled block against one adversary system (G2 >= 0, H2 == 0, cone triples T2 over vars2), coupled by
     the pairing inequalities and the bilinear violation polynomials `viol` (any > 0).  Books a discharged
     obligation (with reachability twin) on `unsat`; returns the solver's answer."""
@@ -442,8 +442,17 @@ def rlt_block(ses, cp, blk, G2, H2, T2, vars2, viol, label, kind, sample=None, t
             G2 += [h2 - e, h2 + e]
         for h1, t1 in block_socs(cp, blk):
             if len(t1) == len(t2):
-                dot = sum((a * b for a, b in zip(t1, t2)), Poly())
-                pairs += [h1 * h2 + dot, h1 * h2 - dot]
+                if full_pairing and len(t2) <= 3:
+                    # the cone is invariant under permutations and reflections of the tail coordinates, so
+                    # h1*h2 + <t1, S P t2> >= 0 is a fact for EVERY permutation P and sign pattern S: the harness
+                    # need not know in which order / orientation RSOME lists the members of its dual cone
+                    import itertools
+                    for perm in itertools.permutations(range(len(t2))):
+                        for sg in itertools.product((1, -1), repeat=len(t2)):
+                            pairs.append(h1 * h2 + sum((t1[i] * t2[perm[i]] * sg[i] for i in range(len(t2))), Poly()))
+                else:
+                    dot = sum((a * b for a, b in zip(t1, t2)), Poly())
+                    pairs += [h1 * h2 + dot, h1 * h2 - dot]
     (res, _), lincs = rlt_refute(ses, G1, H1, vars1, G2, list(H2), list(vars2), pairs, viol, label,
                                  timeout_ms=timeout_ms or 20000)
     if res == 'unsat':
